@@ -599,6 +599,125 @@ def corr_case_gen(seed, drv, res):
     res.dist("clone:corrgen")
 
 
+def label_elem_clone(W, kind, x, c, off):
+    """register the objects of an element clone under label(original) + off, by parallel traversal"""
+    def reg(k, orig, copy):
+        lab = W.lab.get(id(orig))
+        if lab is not None and copy is not None and id(copy) not in W.lab:
+            W.reg(k, lab[1] + off, copy)
+
+    def port(p0, p1):
+        reg("port", p0, p1)
+        if len(p0._pins) != len(p1._pins):
+            return False
+        for q0, q1 in zip(p0._pins, p1._pins):
+            reg("pin", q0, q1)
+        return True
+
+    def cable(c0, c1):
+        reg("cable", c0, c1)
+        if len(c0._wires) != len(c1._wires):
+            return False
+        for w0, w1 in zip(c0._wires, c1._wires):
+            reg("wire", w0, w1)
+        return True
+
+    def definition(d0, d1):
+        reg("definition", d0, d1)
+        if (len(d0._ports), len(d0._cables), len(d0._children)) != (len(d1._ports), len(d1._cables), len(d1._children)):
+            return False
+        ok = all(port(a, b) for a, b in zip(d0._ports, d1._ports)) and all(cable(a, b) for a, b in zip(d0._cables, d1._cables))
+        for k0, k1 in zip(d0._children, d1._children):
+            reg("instance", k0, k1)
+        return ok
+
+    if kind == "pin":
+        reg("pin", x, c); return True
+    if kind == "wire":
+        reg("wire", x, c); return True
+    if kind == "instance":
+        reg("instance", x, c); return True
+    if kind == "port":
+        return port(x, c)
+    if kind == "cable":
+        return cable(x, c)
+    if kind == "definition":
+        return definition(x, c)
+    if kind == "library":
+        reg("library", x, c)
+        if len(x._definitions) != len(c._definitions):
+            return False
+        return all(definition(a, b) for a, b in zip(x._definitions, c._definitions))
+    return False
+
+
+ELEM_KINDS = ["library", "definition", "instance", "port", "cable", "wire", "pin"]
+
+
+def corr_case_elem(seed, drv, res, kind=None):
+    """generated netlist loaded into the model; clone ONE element of a random kind; compare every record of every
+    object that exists on the implementation side (the clone's subtree AND all originals, so the reference-set
+    bookkeeping on shared definitions is compared too) with S.cloneElem (double + prune script of public calls)"""
+    from engines.irlib import World, dump_impl, canon_model_dump
+    rng = random.Random(seed ^ 0x5EED)
+    nl = gen_case(rng)
+    extra_shapes(nl, rng)
+    if nl._top_instance is not None and nl._top_instance._reference is None:
+        return
+    if add_blank_children(nl, rng):
+        res.dist("correlem:with_reference_less_children")
+    W = World()
+    drv.ask({"cmd": "reset"})
+    load_into_model(W, nl, drv)
+    before = dump_impl(W)
+    md0 = canon_model_dump(drv.ask({"cmd": "dump", "n": W.counts()}))
+    if md0 != before:
+        return      # reported by corr_case_gen
+    rk = rng.choice(ELEM_KINDS)
+    kind = kind or rk
+    labs = sorted(W.objs[kind])
+    if not labs:
+        return
+    xl = rng.choice(labs)
+    x = W.objs[kind][xl]
+    inp = {"seed": seed, "what": "correlem", "kind": kind, "label": xl}
+    off = max(W.counts().values()) + 1
+    try:
+        c = x.clone()
+    except Exception as e:
+        import traceback
+        tb = traceback.extract_tb(e.__traceback__)
+        site = next((f for f in reversed(tb) if "/spydrnet/" in f.filename), tb[-1])
+        res.spec_failure("%s.clone.raises.%s@%s:%s" % (kind, type(e).__name__, os.path.basename(site.filename), site.name), inp, repr(e)[:200])
+        return
+    W.keep.append(c)
+    if not label_elem_clone(W, kind, x, c, off):
+        res.spec_failure("%s.clone.not_identical" % kind, inp, "shape of the copy differs (parallel traversal failed)")
+        return
+    after = dump_impl(W)
+    m = drv.ask({"cmd": "cloneElem", "kind": kind, "x": xl, "off": off})
+    if any(r != "ok" for r in m.get("res", ["?"])):
+        res.corr_mismatch("S.cloneElem: every call of the prune script is accepted by the model", inp, "n/a", m.get("res"))
+        return
+    md = canon_model_dump(drv.ask({"cmd": "dump", "n": W.counts()}))
+    exist_i = set(W.objs["instance"])
+    bad = []
+    for k2 in after:
+        for lab2, rec in enumerate(after[k2]):
+            if lab2 not in W.objs[k2]:
+                continue
+            mrec = md[k2][lab2] if lab2 < len(md[k2]) else None
+            if mrec is not None and k2 == "definition":
+                mrec = dict(mrec, refs=[i for i in mrec["refs"] if i in exist_i])
+            if rec != mrec:
+                bad.append((k2, lab2, rec, mrec))
+    if bad:
+        res.corr_mismatch("%s.clone = S.cloneElem (double + prune script) on a generated netlist" % kind.capitalize(), inp,
+                          [b[:3] for b in bad[:3]], [b[3] for b in bad[:3]])
+    res.case(stable_hash([seed, "correlem", kind]), nontrivial=True)
+    res.dist("clone:correlem:" + kind)
+
+
 def gen_case(rng):
     return gen.gen_netlist(rng, n_leaf=(1, 3), n_mid=(1, 4), n_libs=(1, 3), named=rng.random() < 0.8,
                            unnamed_frac=rng.choice([0.0, 0.0, 0.3]), orphan_insts=rng.choice([0, 0, 1]))
@@ -615,6 +734,19 @@ def extra_shapes(nl, rng):
             nl.top_instance = rng.choice(rng.choice(ds)._children)
 
 
+def add_blank_children(nl, rng):
+    """children without a reference (legal IR state: `create_child()` / `Instance()` before a reference is set)"""
+    ds = [d for lib in nl._libraries for d in lib._definitions]
+    n = 0
+    if ds and rng.random() < 0.35:
+        for _ in range(rng.randint(1, 2)):
+            d = rng.choice(ds)
+            if d._children or d._cables or rng.random() < 0.5:      # mostly keep leaf cells leaf
+                d.create_child("blank_%d" % n if rng.random() < 0.7 else None)
+                n += 1
+    return n
+
+
 def run_case(seed, res, what):
     rng = random.Random(seed)
     nl = gen_case(rng)
@@ -623,7 +755,15 @@ def run_case(seed, res, what):
     if what == "netlist":
         fails = check_netlist_clone(nl, rng, res, inp)
     else:
-        fails = check_element_clones(nl, rng, res, inp)
+        if add_blank_children(nl, rng):
+            res.dist("elements:with_reference_less_children")
+        try:
+            fails = check_element_clones(nl, rng, res, inp)
+        except Exception as e:                                   # a clone call that raises on a legal element
+            import traceback
+            tb = traceback.extract_tb(e.__traceback__)
+            site = next((f for f in reversed(tb) if "/spydrnet/" in f.filename), tb[-1])
+            fails = [("element.clone.raises.%s@%s:%s" % (type(e).__name__, os.path.basename(site.filename), site.name), repr(e)[:200])]
     c = canon.cnetlist(nl, with_data=False)
     res.case(stable_hash([seed, what]), nontrivial=sum(len(l["definitions"]) for l in c["libraries"]) >= 2)
     res.dist("clone:" + what)
@@ -644,14 +784,19 @@ def shard(pid, tier, seed, idx, n_cases):
             s = stable_hash([seed, pid, idx, j])
             corr_case(int(s, 16) % (1 << 30), drv, res)
             corr_case_gen(int(s, 16) % (1 << 30), drv, res)
+            corr_case_elem(int(s, 16) % (1 << 30), drv, res, ELEM_KINDS[j % len(ELEM_KINDS)])
+            corr_case_elem((int(s, 16) >> 8) % (1 << 30), drv, res)
+        cdir = os.path.join(ROOT, "corpus", pid)
+        if idx == 0 and os.path.isdir(cdir):
+            for fn in sorted(os.listdir(cdir)):
+                if fn.endswith(".json"):
+                    item = json.load(open(os.path.join(cdir, fn)))
+                    if item["what"] == "correlem":
+                        corr_case_elem(item["seed"], drv, res, item.get("kind"))
+                    else:
+                        run_case(item["seed"], res, item["what"])
     finally:
         drv.close()
-    cdir = os.path.join(ROOT, "corpus", pid)
-    if idx == 0 and os.path.isdir(cdir):
-        for fn in sorted(os.listdir(cdir)):
-            if fn.endswith(".json"):
-                item = json.load(open(os.path.join(cdir, fn)))
-                run_case(item["seed"], res, item["what"])
     for j in range(n_cases):
         s = stable_hash([seed, pid, idx, j])
         run_case(int(s, 16) % (1 << 30), res, "netlist" if j % 2 == 0 else "elements")
@@ -661,7 +806,7 @@ def shard(pid, tier, seed, idx, n_cases):
 
 def run(ctx):
     pid = "C07"
-    lean.check_obligations(ctx, "Spydr/IR", ["Spydr.IR.Props.C07"], ["drv_ir"], "Spydr/IR/AuditClone.lean", META[pid]["theorems"])
+    lean.check_obligations(ctx, "Spydr/IR", ["Spydr.IR.Props.C07", "Spydr.IR.Props.C07Elem"], ["drv_ir"], "Spydr/IR/AuditClone.lean", META[pid]["theorems"])
     ctx.rule = ("generated netlists (hierarchy, cross-library references, top standalone / also a child / absent, named and unnamed elements, user data, orphan "
                 "instances); even cases: netlist.clone() - identical canonical value, identity-disjointness of everything reachable, self-containedness / "
                 "well-formedness of the copy, name lookups on the copy, source untouched, edits+uniquify+flatten on either side invisible in the other; odd cases: "
@@ -670,9 +815,12 @@ def run(ctx):
     if ctx.replay:
         item = json.load(open(ctx.replay if os.path.isabs(ctx.replay) else os.path.join(ROOT, ctx.replay)))
         res = ShardResult()
-        if item["input"]["what"] in ("corr", "corrgen"):
+        if item["input"]["what"] in ("corr", "corrgen", "correlem"):
             drv = lean.Driver("drv_ir")
-            (corr_case if item["input"]["what"] == "corr" else corr_case_gen)(item["input"]["seed"], drv, res)
+            if item["input"]["what"] == "correlem":
+                corr_case_elem(item["input"]["seed"], drv, res, item["input"].get("kind"))
+            else:
+                (corr_case if item["input"]["what"] == "corr" else corr_case_gen)(item["input"]["seed"], drv, res)
             drv.close()
         else:
             run_case(item["input"]["seed"], res, item["input"]["what"])
